@@ -1,7 +1,274 @@
 package main
 
-// Replay of refutations against the real code (filled in per driver).
+// Replay of refutations against the real code: the solver's model is turned into concrete inputs, a Go test generated
+// from a driver template is injected into the real package with `go test -overlay` (nothing is written into /repo),
+// and the test reports whether the violation shows on the real code.
+
+import (
+	"bytes"
+	"encoding/json"
+	"fmt"
+	"os"
+	"os/exec"
+	"path/filepath"
+	"regexp"
+	"strconv"
+	"strings"
+	"text/template"
+)
+
+// parseModel extracts nullary definitions (name -> value text) from a solver model.
+func parseModel(text string) map[string]string {
+	out := map[string]string{}
+	re := regexp.MustCompile(`\(define-fun\s+(\S+)\s+\(\)\s+(\S+)\s*`)
+	idx := re.FindAllStringSubmatchIndex(text, -1)
+	for _, m := range idx {
+		name := text[m[2]:m[3]]
+		rest := text[m[1]:]
+		val := readSexp(rest)
+		out[name] = strings.TrimSpace(val)
+	}
+	return out
+}
+
+func readSexp(s string) string {
+	s = strings.TrimLeft(s, " \n\t")
+	if s == "" {
+		return ""
+	}
+	if s[0] == '"' {
+		i := 1
+		for i < len(s) {
+			if s[i] == '"' {
+				if i+1 < len(s) && s[i+1] == '"' {
+					i += 2
+					continue
+				}
+				return s[:i+1]
+			}
+			i++
+		}
+		return s
+	}
+	if s[0] != '(' {
+		i := strings.IndexAny(s, " \n\t)")
+		if i < 0 {
+			return s
+		}
+		return s[:i]
+	}
+	depth := 0
+	inStr := false
+	for i := 0; i < len(s); i++ {
+		c := s[i]
+		if inStr {
+			if c == '"' {
+				inStr = false
+			}
+			continue
+		}
+		switch c {
+		case '"':
+			inStr = true
+		case '(':
+			depth++
+		case ')':
+			depth--
+			if depth == 0 {
+				return s[:i+1]
+			}
+		}
+	}
+	return s
+}
+
+// smtStringToGo decodes an SMT-LIB string literal into a Go string.
+func smtStringToGo(lit string) (string, bool) {
+	if len(lit) < 2 || lit[0] != '"' || lit[len(lit)-1] != '"' {
+		return "", false
+	}
+	body := lit[1 : len(lit)-1]
+	body = strings.ReplaceAll(body, `""`, `"`)
+	var b strings.Builder
+	for i := 0; i < len(body); {
+		if strings.HasPrefix(body[i:], `\u{`) {
+			j := strings.Index(body[i:], "}")
+			if j > 0 {
+				v, err := strconv.ParseInt(body[i+3:i+j], 16, 32)
+				if err == nil {
+					if v < 256 {
+						b.WriteByte(byte(v))
+					} else {
+						b.WriteRune(rune(v))
+					}
+					i += j + 1
+					continue
+				}
+			}
+		}
+		if strings.HasPrefix(body[i:], `\u`) && i+6 <= len(body) {
+			v, err := strconv.ParseInt(body[i+2:i+6], 16, 32)
+			if err == nil {
+				b.WriteRune(rune(v))
+				i += 6
+				continue
+			}
+		}
+		b.WriteByte(body[i])
+		i++
+	}
+	return b.String(), true
+}
+
+func smtIntToGo(v string) (int64, bool) {
+	v = strings.TrimSpace(v)
+	if strings.HasPrefix(v, "(-") {
+		inner := strings.TrimSpace(strings.TrimSuffix(strings.TrimPrefix(v, "(-"), ")"))
+		n, err := strconv.ParseInt(inner, 10, 64)
+		return -n, err == nil
+	}
+	n, err := strconv.ParseInt(v, 10, 64)
+	return n, err == nil
+}
+
+type replayDriver struct {
+	Pkg  string // package directory relative to the repo, e.g. internal/hashing
+	Body string
+}
+
+func loadDriver(verif, name string) (*replayDriver, error) {
+	data, err := os.ReadFile(filepath.Join(verif, "replay", name+".tmpl"))
+	if err != nil {
+		return nil, err
+	}
+	text := string(data)
+	d := &replayDriver{}
+	if m := regexp.MustCompile(`(?m)^// pkg: *(\S+)`).FindStringSubmatch(text); m != nil {
+		d.Pkg = m[1]
+	} else {
+		return nil, fmt.Errorf("driver %s: missing '// pkg:' line", name)
+	}
+	d.Body = text
+	return d, nil
+}
+
+// modelLookup finds the model value of an input by its base name (lem.<n>, in.<n>!k).
+func modelLookup(model map[string]string, base string) (string, bool) {
+	if v, ok := model["lem."+base]; ok {
+		return v, true
+	}
+	best := ""
+	for k, v := range model {
+		if strings.HasPrefix(k, "in."+base+"!") {
+			if best == "" || k < best {
+				best = k
+				_ = v
+			}
+		}
+	}
+	if best != "" {
+		return model[best], true
+	}
+	return "", false
+}
 
 func tryReplay(prog *Program, ps *PropSpec, o *Obligation, repo, verif string) (bool, string) {
-	return false, ""
+	driverName := ""
+	for re, d := range ps.Replays {
+		if ok, _ := regexp.MatchString(re, o.Name); ok {
+			driverName = d
+		}
+	}
+	if driverName == "" {
+		return false, "no replay driver registered for this obligation"
+	}
+	if o.Model == "" {
+		return false, "solver gave no model"
+	}
+	drv, err := loadDriver(verif, driverName)
+	if err != nil {
+		return false, "replay driver: " + err.Error()
+	}
+	model := parseModel(o.Model)
+	missing := ""
+	funcs := template.FuncMap{
+		"str": func(name string) string {
+			v, ok := modelLookup(model, name)
+			if !ok {
+				// unconstrained inputs do not appear in the model: any value works
+				return `""`
+			}
+			s, ok := smtStringToGo(v)
+			if !ok {
+				missing += " " + name
+				return `""`
+			}
+			return strconv.Quote(s)
+		},
+		"int": func(name string) string {
+			v, ok := modelLookup(model, name)
+			if !ok {
+				return "0"
+			}
+			n, ok := smtIntToGo(v)
+			if !ok {
+				missing += " " + name
+				return "0"
+			}
+			return strconv.FormatInt(n, 10)
+		},
+		"bool": func(name string) string {
+			v, ok := modelLookup(model, name)
+			if !ok {
+				return "false"
+			}
+			return strings.TrimSpace(v)
+		},
+	}
+	tpl, err := template.New(driverName).Funcs(funcs).Parse(drv.Body)
+	if err != nil {
+		return false, "replay driver template: " + err.Error()
+	}
+	var buf bytes.Buffer
+	if err := tpl.Execute(&buf, nil); err != nil {
+		return false, "replay driver template: " + err.Error()
+	}
+	if missing != "" {
+		return false, "model values not convertible:" + missing
+	}
+	out, confirmed := runOverlayTest(repo, drv.Pkg, buf.String())
+	o.Model += "\n--- replay test (" + driverName + ") ---\n" + buf.String() + "\n--- replay output ---\n" + out + "\n"
+	if confirmed {
+		return true, "replayed on the real code: violation confirmed"
+	}
+	return false, "replay on the real code did not reproduce the violation"
+}
+
+// runOverlayTest injects testSrc as a _test.go file of package dir pkg and runs TestVerifReplay.
+func runOverlayTest(repo, pkg, testSrc string) (string, bool) {
+	tmp, err := os.MkdirTemp("", "govc-replay-")
+	if err != nil {
+		return err.Error(), false
+	}
+	defer os.RemoveAll(tmp)
+	testFile := filepath.Join(tmp, "zz_verif_replay_test.go")
+	if err := os.WriteFile(testFile, []byte(testSrc), 0o644); err != nil {
+		return err.Error(), false
+	}
+	ov := map[string]map[string]string{"Replace": {filepath.Join(repo, pkg, "zz_verif_replay_test.go"): testFile}}
+	ovData, _ := json.Marshal(ov)
+	ovFile := filepath.Join(tmp, "overlay.json")
+	os.WriteFile(ovFile, ovData, 0o644)
+	cmd := exec.Command("go", "test", "-overlay", ovFile, "-vet=off", "-v", "-count=1", "-timeout", "60s", "-run", "TestVerifReplay", "./"+pkg+"/")
+	cmd.Dir = repo
+	cmd.Env = goEnv()
+	var buf bytes.Buffer
+	cmd.Stdout = &buf
+	cmd.Stderr = &buf
+	_ = cmd.Run()
+	out := buf.String()
+	if len(out) > 8000 {
+		out = out[:8000] + "\n...(truncated)"
+	}
+	return out, strings.Contains(out, "REPLAY-CONFIRMED")
 }
